@@ -18,9 +18,11 @@ Enter(o) == /\ phase \in {"built", "left"} /\ phase' = "inside" /\ UNCHANGED <<f
 ExitNormal(o) == /\ phase = "inside" /\ phase' = "left" /\ UNCHANGED <<files, mode>> /\ open' = {} /\ Ret(o, <<>>)
 ExitRaise(o) == /\ phase = "inside" /\ phase' = "left" /\ UNCHANGED <<files, mode>> /\ Ret(o, <<1>>)
                 /\ open' = (IF Variant = "ok" THEN {} ELSE open)
-\* pool[path]: 1 = an open handle, <<>> = KeyError (path not in the pool)
+\* pool[path]: 1 = an open handle, 0 = the handle the body closed itself, <<>> = KeyError (path not in the pool)
 GetItem(o) == /\ phase = "inside" /\ UNCHANGED vars
-              /\ Ret(o, IF o.f \in files THEN <<1>> ELSE <<>>)
+              /\ Ret(o, IF o.f \in files THEN (IF o.f \in open THEN <<1>> ELSE <<0>>) ELSE <<>>)
+\* the body closes one of the handles itself (e.g. to finish an output early); the others stay open and are closed on exit
+CloseOne(o) == /\ phase = "inside" /\ o.f \in open /\ open' = open \ {o.f} /\ UNCHANGED <<phase, files, mode>> /\ Ret(o, <<>>)
 LenOp(o) == phase = "inside" /\ UNCHANGED vars /\ Ret(o, <<Cardinality(files)>>)
 IterOp(o) == phase = "inside" /\ UNCHANGED vars /\ Ret(o, Sorted(files))
 
@@ -30,6 +32,7 @@ Apply(o) ==
     \/ o.op = "exit" /\ ExitNormal(o)
     \/ o.op = "exit_raise" /\ ExitRaise(o)
     \/ o.op = "getitem" /\ GetItem(o)
+    \/ o.op = "close_one" /\ CloseOne(o)
     \/ o.op = "len" /\ LenOp(o)
     \/ o.op = "iter" /\ IterOp(o)
 Next ==
@@ -37,9 +40,11 @@ Next ==
     \/ Apply([op |-> "enter"]) \/ Apply([op |-> "exit"]) \/ Apply([op |-> "exit_raise"])
     \/ Apply([op |-> "len"]) \/ Apply([op |-> "iter"])
     \/ \E f \in 1..(NFiles + 1) : Apply([op |-> "getitem", f |-> f])
+    \/ \E f \in 1..NFiles : Apply([op |-> "close_one", f |-> f])
 Spec == Init /\ [][Next]_<<vars, last>>
 
-AllOpenInside == phase = "inside" => open = files
+AllOpenInside == [][phase # "inside" /\ phase' = "inside" => open' = files]_<<vars, last>>   \* entering opens every file
+OnlyBodyCloses == [][phase = "inside" /\ phase' = "inside" /\ open' # open => last'.op.op = "close_one"]_<<vars, last>>
 AllClosedOutside == phase # "inside" => open = {}
 
 Obs == [phase |-> phase, files |-> Sorted(files), mode |-> mode, open |-> Sorted(open)]
